@@ -1422,4 +1422,13 @@ def cntLe (a b : RuntimeResources) : Prop :=
   a.Cpu.toNat ≤ b.Cpu.toNat ∧ a.Memory.toNat ≤ b.Memory.toNat ∧ a.Millis.toNat ≤ b.Millis.toNat
 
 
+theorem sl_nat (n m : BitVec 64) :
+    smallerLimit n m = true ↔ (n.toNat ≠ 0 ∧ (m.toNat = 0 ∨ n.toNat < m.toNat)) := by
+  have e0 : ∀ z : BitVec 64, z = 0#64 ↔ z.toNat = 0 := fun z => by
+    constructor
+    · intro h; subst h; rfl
+    · intro h; exact BitVec.eq_of_toNat_eq (by simpa using h)
+  rw [smallerLimit_iff]; simp only [ne_eq, e0]
+
+
 end GoluaVerif.Proofs.Ctx
